@@ -328,5 +328,88 @@ theorem solidAfter_buf_prefix (p : SnowIn α) (Nz : Nat) (shelf : List α) (iEnd
   rw [iterIdx_append]
   exact iterIdx_solid_buf _ _ _ _ _ _ _ _
 
+/-- the extra post-nucleation row `run1DOn` writes after the cooling rows -/
+def nucRow (p : SnowIn α) (Nz : Nat) (iEnd : Nat) (s : Cool1D α) : Row α :=
+  { step := iEnd, time := (grid1D p Nz).dt * ofNat' iEnd, shelf := s.Tshelf - lit 27315 2,
+    temp := (nucleate1D p s.T).1.map (· - lit 27315 2),
+    ice := (nucleate1D p s.T).2.map (· / (p.const.mass_water + p.const.mass_solute)) }
+
+/-- **how `run1DOn` builds the PUBLISHED history**: if the cooling loop nucleates at step `iEnd` in state `s`,
+`hist` is `none` (the run raises) when the post-nucleation row or a solidification row falls outside its
+buffer or solidification does not complete, and otherwise the cooling rows, the post-nucleation row and the
+rows saved by the solidification loop `solidAfter … (full length)` except the last. -/
+theorem run1DOn_hist (p : SnowIn α) (Nz : Nat) (old : Bool) (shelf : List α) (iEnd : Nat) (s : Cool1D α)
+    (hc : cool1D p (grid1D p Nz) old shelf = (some iEnd, s)) :
+    (run1DOn p Nz old shelf).hist =
+      if (saveRow NSave (s.buf, s.oob) (nucRow p Nz iEnd s)).2 then none
+      else if (solidAfter p Nz shelf iEnd s (shelf.drop iEnd).length).oob then none
+      else match (solidAfter p Nz shelf iEnd s (shelf.drop iEnd).length).solEnd with
+        | none => none
+        | some _ => some ((saveRow NSave (s.buf, s.oob) (nucRow p Nz iEnd s)).1 ++
+            (solidAfter p Nz shelf iEnd s (shelf.drop iEnd).length).buf.extract 0
+              ((solidAfter p Nz shelf iEnd s (shelf.drop iEnd).length).buf.size - 1)) := by
+  rw [solidAfter_full p Nz shelf iEnd s _ (Nat.le_refl _)]
+  unfold run1DOn
+  simp only [hc]
+  unfold nucRow solidInit
+  split
+  · rfl
+  · split
+    · rfl
+    · split
+      · rename_i heq; simp only [heq]
+      · rename_i heq; simp only [heq]
+
+theorem extract_dropLast_prefix {ρ : Type} (A r : Array ρ) :
+    ∃ t, (A ++ r).extract 0 ((A ++ r).size - 1) = A.extract 0 (A.size - 1) ++ t := by
+  refine ⟨(A ++ r).extract (A.size - 1) ((A ++ r).size - 1), ?_⟩
+  have h1 : A.extract 0 (A.size - 1) = (A ++ r).extract 0 (A.size - 1) := by
+    rw [Array.extract_append]
+    simp
+  rw [h1, Array.extract_append_extract]
+  congr 1
+  simp only [Array.size_append]; omega
+
+/-- a published history starts with the cooling rows, the post-nucleation row and the rows saved in the first
+`m` solidification iterations (all but the last of them) -/
+theorem hist_starts_with (p : SnowIn α) (Nz : Nat) (old : Bool) (shelf : List α) (iEnd : Nat) (s : Cool1D α) (m : Nat)
+    (hc : cool1D p (grid1D p Nz) old shelf = (some iEnd, s)) (H : Array (Row α))
+    (hH : (run1DOn p Nz old shelf).hist = some H) :
+    ∃ t, H = ((saveRow NSave (s.buf, s.oob) (nucRow p Nz iEnd s)).1 ++
+        (solidAfter p Nz shelf iEnd s m).buf.extract 0 ((solidAfter p Nz shelf iEnd s m).buf.size - 1)) ++ t := by
+  rw [run1DOn_hist p Nz old shelf iEnd s hc] at hH
+  obtain ⟨r, hr⟩ := solidAfter_buf_prefix p Nz shelf iEnd s m
+  obtain ⟨t, ht⟩ := extract_dropLast_prefix (solidAfter p Nz shelf iEnd s m).buf r
+  split at hH
+  · cases hH
+  · split at hH
+    · cases hH
+    · split at hH
+      · cases hH
+      · simp only [Option.some.injEq] at hH
+        refine ⟨t, ?_⟩
+        rw [← hH, hr, ht, Array.append_assoc]
+
+/-- **published rows before a window that opens later, both stages**: under the hypotheses of
+`run1D_prefix_shelf`, whenever the VISF run and the shelf run publish a history (`hist = some _`; a run that
+raises publishes none), BOTH histories start with the same rows: every cooling row, the post-nucleation row,
+and the rows saved in the first `m` solidification iterations except the last of them. -/
+theorem run1D_hist_prefix_shelf (p : SnowIn α) (Nz : Nat) (old : Bool) (shelf : List α) (iEnd : Nat) (s : Cool1D α)
+    (m : Nat)
+    (hnuc : cool1D (shelfOf p) (grid1D p Nz) old shelf = (some iEnd, s))
+    (hcool : ∀ i, i ≤ iEnd → notMet p ((grid1D p Nz).dt * ofNat' i))
+    (hsol : ∀ i, i < m → notMet p ((grid1D p Nz).dt * ofNat' iEnd + (grid1D p Nz).dt * ofNat' i))
+    (Hv Hs : Array (Row α))
+    (hv : (run1DOn p Nz old shelf).hist = some Hv) (hs : (run1DOn (shelfOf p) Nz old shelf).hist = some Hs) :
+    ∃ P tv ts, Hv = P ++ tv ∧ Hs = P ++ ts ∧
+      P = (saveRow NSave (s.buf, s.oob) (nucRow p Nz iEnd s)).1 ++
+        (solidAfter (shelfOf p) Nz shelf iEnd s m).buf.extract 0
+          ((solidAfter (shelfOf p) Nz shelf iEnd s m).buf.size - 1) := by
+  obtain ⟨hc, hpre⟩ := run1D_prefix_shelf p Nz old shelf iEnd s m hnuc hcool hsol
+  obtain ⟨tv, htv⟩ := hist_starts_with p Nz old shelf iEnd s m hc Hv hv
+  obtain ⟨ts, hts⟩ := hist_starts_with (shelfOf p) Nz old shelf iEnd s m hnuc Hs hs
+  rw [hpre] at htv
+  exact ⟨_, tv, ts, htv, hts, rfl⟩
+
 end
 end Snow.EvapLink
